@@ -132,9 +132,9 @@ func runCase(out *hx.Out, lines [][]string) {
 
 type fatalCore struct{ hit *atomic.Bool }
 
-func (c fatalCore) Enabled(l zapcore.Level) bool        { return l >= zapcore.FatalLevel }
-func (c fatalCore) With([]zapcore.Field) zapcore.Core   { return c }
-func (c fatalCore) Sync() error                         { return nil }
+func (c fatalCore) Enabled(l zapcore.Level) bool      { return l >= zapcore.FatalLevel }
+func (c fatalCore) With([]zapcore.Field) zapcore.Core { return c }
+func (c fatalCore) Sync() error                       { return nil }
 func (c fatalCore) Write(e zapcore.Entry, _ []zapcore.Field) error {
 	if e.Level >= zapcore.FatalLevel {
 		c.hit.Store(true)
@@ -297,14 +297,14 @@ const (
 var stNames = map[int]string{stSub: "sub", stIdle: "idle", stDone: "done", stFatal: "fatal", stStall: "stall"}
 
 type env struct {
-	out    sink
-	rec    *recorder
-	delay  time.Duration
-	limit  time.Duration
+	out      sink
+	rec      *recorder
+	delay    time.Duration
+	limit    time.Duration
 	lastDrop bool // the last reply of the current wait was a connection cut during a fetch
-	follow uint64
-	batch  uint64
-	chain  map[uint64][]clog
+	follow   uint64
+	batch    uint64
+	chain    map[uint64][]clog
 
 	node   *node
 	ec     *executionclient.ExecutionClient
@@ -341,7 +341,14 @@ type env struct {
 func (e *env) HandleBlockEventsStream(logs <-chan executionclient.BlockLogs, executeTasks bool) (uint64, error) {
 	if e.histMode {
 		e.histLast = 0
-		e.wait(logs, false)
+		if e.wait(logs, false) == stStall {
+			// SyncHistory would wait for the fetch forever: cancel it and read the channel to its end
+			e.out.ViolF("the client stalled during the historical fetch (no reaction within %v, in each of 3 attempts)", e.limit)
+			e.cancelOp()
+			last := e.histLast
+			e.wait(logs, false)
+			e.histLast = last
+		}
 		return e.histLast, nil
 	}
 	e.streamLoop(logs)
@@ -364,7 +371,8 @@ func (e *env) ensureClient() {
 		executionclient.WithLogBatchSize(e.batch),
 		executionclient.WithConnectionTimeout(5*time.Second),
 		executionclient.WithReconnectionInitialInterval(time.Millisecond),
-		executionclient.WithReconnectionMaxInterval(2*time.Second),
+		// reconnect panics once its doubling interval reaches the maximum; keep that out of reach
+		executionclient.WithReconnectionMaxInterval(time.Hour),
 	)
 	if err != nil {
 		fmt.Fprintln(os.Stderr, "cannot connect to the fake node:", err)
